@@ -426,7 +426,11 @@ SEARCHES = ('binary_search_by', 'binary_search_by_key', 'binary_search', 'partit
 
 
 def purge_fns(prog):
-    """functions that purge a list: contain a retain call whose closure is a liveness closure"""
+    """functions that purge a list: contain a retain call whose closure is a liveness closure, or (wrappers) call such
+    a function with their own time parameter"""
+    key = ('purgefns',)
+    if key in prog._summ_cache:
+        return prog._summ_cache[key]
     out = {}
     for fn in prog.fns.values():
         if fn.is_closure:
@@ -436,6 +440,18 @@ def purge_fns(prog):
                 for cl in prog.closures_passed(c):
                     if L.live_sites(prog, cl):
                         out[fn.path] = fn
+    changed = True
+    while changed:
+        changed = False
+        for fn in prog.fns.values():
+            if fn.is_closure or fn.path in out or fn.trait_item:
+                continue
+            for c in fn.body.calls:
+                t = prog.resolve(c)
+                if t is not None and t.path in out and any(isinstance(own_time_param(fn, a), int) for a in c.args[1:]):
+                    out[fn.path] = fn
+                    changed = True
+    prog._summ_cache[key] = out
     return out
 
 
@@ -573,9 +589,15 @@ def check_min_exp(ctx, purges, list_adts):
         ctx.anchor_missing(RULE, 'min_exp invariant obligations', LIST_PROPS, n, 3)
 
 
-def check_purge_min(prog, fn, st):
+def check_purge_min(prog, fn, st, _val=None):
     b = fn.body
-    v = strip(st.value)
+    v = strip(st.value) if _val is None else strip(_val)
+    if v.kind == 'call' and prog.resolve(v) is not None and prog.resolve(v).path in purge_fns(prog):
+        # the minimum is returned by the purge helper: judge the helper's result
+        p = prog.resolve(v)
+        res = [check_purge_min(prog, p, None, rv) for rv in p.body.ret_val.values()]
+        bad = [r for r in res if not r[0]]
+        return (False, bad[0][1]) if bad else (True, '')
     if v.kind != 'escaped':
         return False, 'assigned value is not the accumulator captured by the retain closure'
     local = v.args[0]
@@ -585,7 +607,8 @@ def check_purge_min(prog, fn, st):
         return False, 'accumulator does not start at max_expiration()'
     # the closure must lower it with min(acc, exp) on the keep path and nowhere else
     retain = [c for c in b.calls if c.callee_name() in ('retain', 'retain_mut')]
-    if not retain or not b.cfg.dominates(retain[0].point[0], st.point[0]):
+    use_block = st.point[0] if st is not None else (v.point[0] if v.point else b.cfg.returns[0])
+    if not retain or not b.cfg.dominates(retain[0].point[0], use_block):
         return False, 'assignment is not after the retain'
     for cl in prog.closures_passed(retain[0]):
         cb = cl.body
